@@ -84,14 +84,21 @@ func (c *Ctx) TimeLeft() bool {
 	if c.MaxRuns > 0 && c.Res.Runs >= c.MaxRuns {
 		return false
 	}
-	// Runs that end in a simulated process stop (or cannot close their database after an injected fault) leave
-	// goroutines blocked inside the code under test, and with them their buffers. The worker stops early when it has
-	// grown too much; the driver starts a fresh process for the rest of the budget.
-	if c.Res.Runs%16 == 0 && rssMB() > int(envInt("VERIF_RSS_LIMIT_MB", 1500)) {
-		c.Res.Counters["worker-stopped-early-for-memory"] = 1
+	if c.MemoryHigh() {
 		return false
 	}
 	return time.Now().Before(c.Deadline)
+}
+
+// MemoryHigh: runs that end in a simulated process stop (or cannot close their database after an injected fault) leave
+// goroutines blocked inside the code under test, and with them their buffers. The worker stops early when it has
+// grown too much; the driver starts a fresh process for the rest of the budget.
+func (c *Ctx) MemoryHigh() bool {
+	if rssMB() > int(envInt("VERIF_RSS_LIMIT_MB", 1500)) {
+		c.Res.Counters["worker-stopped-early-for-memory"] = 1
+		return true
+	}
+	return false
 }
 
 func rssMB() int {
